@@ -339,7 +339,11 @@ class Prop:
                 else:
                     ops.append(["add", rng.choice([-1] + list(range(n))), rng.randrange(nl), rng.choice([None, None, 7, "a"]),
                                 rng.choice([None, None, 5])])
-            yield dict(univ=UNIV, calc=rng.choice([None, None, "name", "mod7"]), typed=typed, nodes=nodes, ops=ops, rev=rng.random() < 0.5,
+            calc = rng.choice([None, None, "name", "mod7"])
+            # an identity-hashed object has a different hash in every process: under hash-mod-7 ids the clone structure
+            # would not be reproducible from the description, so a value-hashed dataclass takes its place there
+            univ = [("d:1" if u == "p:1" else u) for u in UNIV] if calc == "mod7" else UNIV
+            yield dict(univ=univ, calc=calc, typed=typed, nodes=nodes, ops=ops, rev=rng.random() < 0.5,
                        mode="sample", qseed=rng.randrange(1 << 30), nq=60 if tier == "quick" else 90,
                        ks=_k([None, 0, 1, 2, 3, 4, 5]))
 
